@@ -1065,3 +1065,55 @@ Definition holds_C08_pledged (pre post : state) (lid amt : Z) : bool :=
   | Some l0, None => pledged (borrows pre) (nborrows pre) lid =? 0
   | None, _ => false
   end.
+
+(* ------------------------------------------------------------------------------------------ *)
+(* The per-message rules of C08 as statements about (state before, message, state after).     *)
+
+(* BorrowAsset: an existing position of this user and pair is topped up and drawn on (DepositDraw),
+   otherwise a new position is opened under the next id *)
+Definition borrow_rule (cfg : config) (st st' : state) (u pid : Z) : Prop :=
+  if has_borrow_for_pair st u pid
+  then exists j, borrow_id_for_pair st u pid = Some j /\ holds_C08_ltv cfg st' j = true
+  else bctr st' = bctr st + 1 /\ holds_C08_ltv_new cfg st' (bctr st') = true.
+Definition ltv_rule (cfg : config) (st : state) (o : op) (st' : state) : Prop :=
+  match o with
+  | ODraw _ j _ _ _ => holds_C08_ltv cfg st' j = true
+  | OBorrow u _ pid _ _ _ _ _ _ _ => borrow_rule cfg st st' u pid
+  | OBorrowAlt u _ _ _ _ pid _ _ _ _ _ _ _ =>
+      (* [st1]: the state after the lend / deposit half of the message *)
+      exists st1, prices st1 = prices st /\ borrow_rule cfg st1 st' u pid
+  | _ => True
+  end.
+
+Definition borrow_pool_rule (cfg : config) (st : state) (u pid din ain aout : Z) (e1 : biter) : Prop :=
+  if has_borrow_for_pair st u pid
+  then exists bid st1 b0, borrow_id_for_pair st u pid = Some bid /\ deposit_borrow_asset cfg st bid u din ain e1 = Ok st1 /\
+                          zget (borrows st1) bid = Some b0 /\ holds_C08_pool cfg st1 (b_pair b0) aout = true
+  else holds_C08_pool cfg st pid aout = true.
+Definition pool_rule (cfg : config) (st : state) (o : op) : Prop :=
+  match o with
+  | ODraw _ j _ amt _ => exists b0, zget (borrows st) j = Some b0 /\ holds_C08_pool cfg st (b_pair b0) amt = true
+  | OBorrow u _ pid _ din ain _ aout e1 _ => borrow_pool_rule cfg st u pid din ain aout e1
+  | OBorrowAlt u _ _ _ ain pid _ _ aout _ _ e1 _ => exists st1 din, borrow_pool_rule cfg st1 u pid din ain aout e1
+  | _ => True
+  end.
+
+Definition pledged_rule (st : state) (o : op) (st' : state) : Prop :=
+  match o with
+  | OWithdraw _ lid _ amt _ => holds_C08_pledged st st' lid amt = true
+  | OCloseLend _ lid _ =>
+      zget (lends st') lid = None /\
+      match zget (lends st) lid with Some l0 => holds_C08_pledged st st' lid (l_avail l0) = true | None => False end
+  | _ => True
+  end.
+
+(* executable forms of the hypotheses (for the examples) *)
+Definition empty_booksb (st : state) : bool :=
+  is_nil (map fst (lends st)) && is_nil (map fst (borrows st)) && (lctr st =? 0) && (bctr st =? 0) &&
+  forallb (fun ks => let s := snd ks in
+                     (s_lend s =? 0) && (s_bor s =? 0) && (s_sbor s =? 0) && is_nil (s_lids s) && is_nil (s_bids s)) (sstats st).
+Definition cfg_wfb (cfg : config) : bool :=
+  forallb (fun ia => (0 <? a_dec (snd ia)) && (a_id (snd ia) =? fst ia)) (c_assets cfg) &&
+  forallb (fun ir => (0 <=? r_ltv (snd ir)) && (0 <=? r_eltv (snd ir))) (c_rates cfg).
+Definition prices_okb (P : list (Z * Z)) : bool := forallb (fun ap => 0 <=? snd ap) P.
+Definition op_saneb (o : op) : bool := match o with OSetPrice _ (Some p) => 0 <=? p | _ => true end.
